@@ -12,13 +12,19 @@ using namespace xalanc;
 namespace {
 
 // ----------------------------------------------------------------------------- the driver's own tree
-struct TNode { std::string name, qname, id; bool hasK = false; int parent = -1; std::vector<int> kids; int idx = 0; };   // name = expanded name "{uri}local"
+struct TNode { std::string name, qname, id; bool hasK = false; int parent = -1; std::vector<int> kids; int idx = 0; int sibAll = 0, sibKept = 0; };   // sibAll / sibKept: sibling nodes of any kind before this element (adjacent text merged); sibKept leaves out white-space-only text   // name = expanded name "{uri}local"
 struct Tree { std::vector<TNode> n; std::map<std::string, int> byId; };
 
 void buildTree(const xercesc::DOMNode* d, int parent, Tree& t) {
+    int all = 0, kept = 0; bool inText = false, textWs = true;
+    auto endText = [&]() { if (inText) { ++all; if (!textWs) ++kept; } inText = false; textWs = true; };
     for (const xercesc::DOMNode* c = d->getFirstChild(); c; c = c->getNextSibling()) {
-        if (c->getNodeType() != xercesc::DOMNode::ELEMENT_NODE) continue;
-        TNode x; x.qname = narrowU8(c->getNodeName()); x.parent = parent; x.idx = (int)t.n.size();
+        const auto ty = c->getNodeType();
+        if (ty == xercesc::DOMNode::TEXT_NODE || ty == xercesc::DOMNode::CDATA_SECTION_NODE) { inText = true; for (const XMLCh* q = c->getNodeValue(); q && *q; ++q) if (*q != 0x20 && *q != 0x9 && *q != 0xA && *q != 0xD) textWs = false; continue; }
+        endText();
+        if (ty == xercesc::DOMNode::COMMENT_NODE || ty == xercesc::DOMNode::PROCESSING_INSTRUCTION_NODE) { ++all; ++kept; continue; }
+        if (ty != xercesc::DOMNode::ELEMENT_NODE) continue;
+        TNode x; x.qname = narrowU8(c->getNodeName()); x.parent = parent; x.idx = (int)t.n.size(); x.sibAll = all; x.sibKept = kept; ++all; ++kept;
         { const XMLCh* u = c->getNamespaceURI(); std::string uri = u ? narrowU8(u) : std::string(); x.name = uri.empty() ? narrowU8(c->getLocalName()) : "{" + uri + "}" + narrowU8(c->getLocalName()); }
         const xercesc::DOMNamedNodeMap* m = c->getAttributes();
         for (XMLSize_t i = 0; m && i < m->getLength(); ++i) { std::string an = narrowU8(m->item(i)->getNodeName()); if (an == "id") x.id = narrowU8(m->item(i)->getNodeValue()); else if (an == "k") x.hasK = true; }
@@ -149,8 +155,9 @@ struct C17 : public Driver {
     const char* property() const override { return "C17"; }
     void init() override { xalanInitOnce(); }
 
-    static std::string sheetFor(const Json& sets, const std::string& order) {
+    static std::string sheetFor(const Json& sets, const std::string& order, bool strip = false) {
         std::string s = "<?xml version=\"1.0\"?>\n<xsl:stylesheet version=\"1.0\" xmlns:xsl=\"http://www.w3.org/1999/XSL/Transform\" xmlns:p1=\"" + std::string(NS1) + "\" xmlns:p2=\"" + NS2 + "\" xmlns:xalan=\"http://xml.apache.org/xalan\" exclude-result-prefixes=\"p1 p2 xalan\"><xsl:output method=\"xml\" encoding=\"UTF-8\" indent=\"no\"/>\n<xsl:template match=\"/\"><out>";
+        if (strip) { size_t q = s.find("<xsl:template"); if (q != std::string::npos) s.insert(q, "<xsl:strip-space elements=\"*\"/><xsl:preserve-space elements=\"item p1:q\"/>"); }
         s += "<xsl:for-each select=\"//*\">"; std::string extra;
         if (order == "rk") s += "<xsl:sort select=\"@rk\" data-type=\"number\"/>";
         else if (order == "rev") s += "<xsl:sort select=\"position()\" data-type=\"number\" order=\"descending\"/>";
@@ -178,7 +185,7 @@ struct C17 : public Driver {
             }
             if (at) s += "<xsl:for-each select=\"@k\">";      // the current node of xsl:number is an attribute
             s += "<o f=\"s" + std::to_string(i) + "\" n=\"" + idsel + "\"><xsl:number" + attrs + " format=\"1\"/></o>";
-            s += "<o f=\"t" + std::to_string(i) + "\" n=\"" + idsel + "\"><xsl:number" + attrs + " format=\"" + p.str("token") + "\"/></o>";
+            s += "<o f=\"t" + std::to_string(i) + "\" n=\"" + idsel + "\"><xsl:number" + attrs + " format=\"" + p.str("token") + (p.str("fsep", "").empty() ? std::string() : p.str("fsep") + p.str("token")) + "\"/></o>";
             if (at) s += "</xsl:for-each>";
         }
         s += "</xsl:for-each></out></xsl:template>" + extra + "</xsl:stylesheet>\n";
@@ -202,8 +209,11 @@ struct C17 : public Driver {
             unsigned c = (unsigned)g.below(7); std::string cnt;
             if (c == 0 || (dc.manyNames && c < 3)) cnt = ""; else if (c == 1) cnt = name(); else if (c == 2) cnt = "*"; else if (c == 3) cnt = name() + "|" + name(); else if (c == 4) cnt = name() + "[@k]"; else if (c == 5) cnt = "*[@k]"; else cnt = (g.chance(1, 2) ? std::string("*") : name()) + "[position() &gt; 0]";
             s["count"] = cnt; s["from"] = g.chance(1, 3) ? name() : std::string(); s["token"] = g.pick(toks);
+            // a separator of its own between two format tokens: ASCII punctuation, or a character of the XML Extender class (not alphanumeric, so a separator)
+            { Rng gs = g.fork("fsep"); static const std::vector<std::string> fs = { "-", ", ", "\xC2\xB7", "\xE3\x83\xBC", "\xE3\x80\x85", ":" }; if (gs.chance(1, 3)) s["fsep"] = gs.pick(fs); }
             // a fifth of the sets number by value expression instead (the rounding of xsl:number value=)
             if (g.chance(1, 5)) { static const std::vector<std::string> vals = { "count(preceding::*) div 2", "(count(preceding::*) + count(ancestor::*)) div 4", "count(*) + 0.5", "count(preceding-sibling::*) * 1.5 + 1", "count(preceding::*) + 1", "count(preceding::*) * 97 + 650", "(count(preceding::*) + 1) * 676", "count(preceding::*) * 13 + 1900", "position()", "position()", "xalan:evaluate(concat(&quot;'&quot;, count(preceding::*) + 1, &quot;'&quot;))", "number(xalan:evaluate(concat(&quot;'&quot;, count(preceding::*) + 2, &quot;'&quot;))) + count(*)" }; s["value"] = g.pick(vals); s["from"] = ""; s["count"] = ""; }
+            else if (g.fork("nodecount").chance(1, 8)) { Rng gn = g.fork("nodecount2"); s["nodecount"] = true; s["count"] = "node()"; s["from"] = ""; s["level"] = gn.chance(1, 2) ? "single" : "multiple"; p["strip"] = gn.chance(2, 3); }      // siblings of every kind count; with xsl:strip-space the white-space-only text nodes do not
             else if (g.chance(1, 5)) { s["attr"] = true; if (g.chance(1, 3)) s["count"] = "@k|*"; }       // number the attribute k of every element that has one; a third with a pattern that matches it too
             else if (g.chance(1, 10)) { s["varcount"] = true; s["count"] = "*[@k]"; s["token"] = "1"; }      // count pattern with a variable reference; the oracle knows its two values
             else if (g.chance(1, 8)) { static const std::vector<std::string> big = { "count(preceding::*) * 2 + 4503599627370497", "(count(preceding::*) + 1) * 98765432101", "count(preceding::*) * 1234567 + 123456789012", "(count(preceding::*) + 1) * 987654321" }; static const std::vector<std::string> seps = { ",", ".", "'", " " };
@@ -213,6 +223,9 @@ struct C17 : public Driver {
             sets.push(s);
         }
         p["sets"] = sets; p["ns_mode"] = nsMode; p["xerces_src"] = run % 4 == 1;
+        { bool nc = false; for (auto& x : sets.a) if (x.boolean("nodecount")) nc = true;
+          if (nc) { auto spaced = [](const std::string& x) { std::string o; for (size_t i = 0; i < x.size(); ++i) { o += x[i]; if (x[i] == '>' && i + 1 < x.size() && x[i + 1] == '<') o += "\n "; } return o; };      // white space between all tags: every element gets white-space-only text children
+                    p["doc"] = spaced(p.str("doc")); p["doc2"] = spaced(p.str("doc2")); } }
         // histories: visiting orders x clock modes (the first is the reference)
         Json hist = Json::array(); static const std::vector<std::string> orders = { "doc", "rk", "rev", "deep" }; static const std::vector<std::string> clocks = { "advance", "coarse", "stall", "minus1", "back" };
         { Json h = Json::object(); h["order"] = "doc"; h["clock"] = "advance"; hist.push(h); }
@@ -253,7 +266,7 @@ struct C17 : public Driver {
             for (size_t h = 0; h < hist.a.size(); ++h) {
                 const Json& H = hist.a[h];
                 g_clock.configure(H.str("clock", "advance"), H.num("delta", 1), H.num("every", 7), H.num("backAt"), H.num("backBy"));
-                XReq rq; rq.doc = pre ? plan.str("doc") : rerank(plan.str("doc"), (uint64_t)H.num("rkseed")); rq.xsl = sheetFor(sets, H.str("order", "doc")); SimSink sink; if (pre || plan.boolean("xerces_src")) rq.srcForm = srcForm;
+                XReq rq; rq.doc = pre ? plan.str("doc") : rerank(plan.str("doc"), (uint64_t)H.num("rkseed")); rq.xsl = sheetFor(sets, H.str("order", "doc"), plan.boolean("strip")); SimSink sink; if (pre || plan.boolean("xerces_src")) rq.srcForm = srcForm;
                 XformOut o = runTransform(env, rq, sink, pre);
                 res.count("transforms"); res.count("simclock_ticks", (int64_t)g_clock.calls); if (H.str("clock") != "advance") res.count("fault:clock-" + H.str("clock")); res.count("order:" + H.str("order"));
                 if (mm.reuse) res.count("fault:addr-reuse");
@@ -265,7 +278,7 @@ struct C17 : public Driver {
             }
             // stale counters: a second document on the same transformer must number like on a fresh one
             g_clock.reset();
-            { XReq rq; rq.doc = plan.str("doc2"); rq.xsl = sheetFor(sets, "doc"); SimSink s1, s2; XformOut a = runTransform(env, rq, s1); XEnv fresh; XformOut b = runTransform(fresh, rq, s2);
+            { XReq rq; rq.doc = plan.str("doc2"); rq.xsl = sheetFor(sets, "doc", plan.boolean("strip")); SimSink s1, s2; XformOut a = runTransform(env, rq, s1); XEnv fresh; XformOut b = runTransform(fresh, rq, s2);
               if (a.status != b.status || a.bytes != b.bytes) { std::string d; std::string f = firstObsDiff(b.bytes, a.bytes, &d); res.violate("stale-counters", f.substr(0, 1), "second document on the reused transformer vs a fresh transformer: " + d); }
               tr.ev("doc2 " + hex64(fnvStr(a.bytes))); }
             kept.release();
@@ -293,6 +306,13 @@ struct C17 : public Driver {
                 }
                 std::vector<int> exp; std::string rel; bool decided;
                 if (!S.str("value").empty()) { double v = valueOf(t, (int)c, S.str("value")); long r = (long)std::floor(v + 0.5); decided = r >= 1; exp.clear(); if (decided) exp.push_back((int)r); rel = "value"; level = "value"; }
+                else if (S.boolean("nodecount")) {
+                    // count="node()": every ancestor-or-self element matches, and so does every sibling node of any kind - but not the white-space-only text
+                    // nodes xsl:strip-space removes from the tree (children of item and p1:q keep theirs)
+                    const bool strip = plan.boolean("strip"); decided = true; rel = strip ? "nodecount-strip" : "nodecount"; exp.clear();
+                    auto pos = [&](int x) { const int par = t.n[x].parent; const bool preserved = par >= 0 && (t.n[par].name == "item" || t.n[par].name == std::string("{") + NS1 + "}q"); return 1 + ((strip && !preserved) ? t.n[x].sibKept : t.n[x].sibAll); };
+                    if (level == "single") exp.push_back(pos((int)c)); else { std::vector<int> rev; for (int x = (int)c; x >= 0; x = t.n[x].parent) rev.push_back(pos(x)); exp.assign(rev.rbegin(), rev.rend()); }
+                }
                 else decided = expected(t, (int)c, at, level, cnt, from, exp, rel);
                 res.count("numbered_nodes");
                 if (decided) {
@@ -315,7 +335,8 @@ struct C17 : public Driver {
                 // roman numerals end at 3999 (Xalan prints "#error" beyond; XSLT 1.0 does not say what else to do): not decoded
                 if (positive && (tok == "i" || tok == "I")) { std::vector<int> pl; if (decodeList(got, "1", pl)) for (int v : pl) if (v > 3999) { positive = false; res.count("oracle_open:roman-above-3999"); break; } }
                 if (ft != values[0].end() && (positive || got.empty())) { std::vector<int> dec, plain; bool okp = decodeList(got, "1", plain);
-                    if (!decodeList(ft->second, tok, dec) || (okp && dec != plain)) res.violate("format-roundtrip", tok, "node " + id + ": format='" + tok + "' gives [" + ft->second + "] for the number list [" + got + "]"); else res.count("format_decoded"); }
+                    std::string shown = ft->second; { const std::string fsep = S.str("fsep", ""); if (!fsep.empty() && shown.find('.') == std::string::npos) { size_t q; while ((q = shown.find(fsep)) != std::string::npos) shown.replace(q, fsep.size(), "."); } else if (!fsep.empty()) shown = "?"; }
+                    if (!decodeList(shown, tok, dec) || (okp && dec != plain)) res.violate("format-roundtrip", tok, "node " + id + ": format='" + tok + "' gives [" + ft->second + "] for the number list [" + got + "]"); else res.count("format_decoded"); }
                 // history independence (position() is, by definition, a function of the visiting order)
                 for (size_t h = 1; h < values.size() && S.str("value") != "position()"; ++h) {
                     auto jt = values[h].find(ks); if (values[h].empty()) continue;
